@@ -927,6 +927,9 @@ class MPO(MPSGeometry):
             new_W[i] = w
         self._W = new_W
         chi = self.chi
+        # new lists: the old ones are shared with (shallow) copies of `self`
+        self.IdL = list(self.IdL)
+        self.IdR = list(self.IdR)
         for b, p in enumerate(perms):
             IdL = self.IdL[b]
             if IdL is not None:
